@@ -1158,6 +1158,7 @@ string parse_data_string(const string& s, string* mask, uint64_t flags) {
 
       } else if ((in[0] == '/') && (in[1] == '*')) {
         reading_multiline_comment = 1;
+        in++; // skip the '*' too, so that "/*/" does not close the comment
 
       } else if (in[0] == '<' && allow_files) {
         reading_filename = 1;
